@@ -331,11 +331,88 @@ def count_rule(ctx, cr):
     ctx.ob(rule, rule + ":uses-filter-count", any(p.endswith("Iterator::filter") for p in calls) and any(p.endswith("::count") for p in calls), "count must be filter(..).count() over its argument: %s" % calls[:6], fn=cf)
 
 
+def join_shape(ctx, cr):
+    """join(list, d) puts d BETWEEN consecutive elements and nowhere else, whatever the elements are: for lists of 0..3 string elements
+    (elements and delimiter symbolic, lengths concrete) the sequence of push_str calls on every Ok path is e1 d e2 d .. en.  A decision
+    that looks at the accumulated text instead of the position (e.g. `if !aggr.is_empty()`) forks on unknown content and yields a path
+    that drops a delimiter."""
+    rule = "R-C18-join-shape"
+    key = "rules::functions::strings::join"
+    f = cr.fns.get(key)
+    if not f:
+        ctx.lost(rule, rule + ":join", key)
+        return
+    QR = "rules::QueryResult"
+    PAVT = "rules::path_value::PathAwareValue"
+    qn = [v["name"] for v in cr.adts[QR]["variants"]]
+    pn = [v["name"] for v in cr.adts[PAVT]["variants"]]
+    for k in range(0, 4):
+        results = []
+
+        class H(ai.Hooks):
+            def ret(self, a, st, v):
+                results.append((v, (st.mon or Mon()).get("ev", ())))
+
+            def call(self, a, st, term, callee, args):
+                p = M.norm_path(callee.get("path", ""))
+                decl = M.norm_path(callee.get("decl", ""))
+                mon = st.mon or Mon()
+                if st.top is not st.frames[0]:
+                    return None
+                if p in ("core::slice::<impl [T]>::len",):
+                    return [(("int", k), mon)]
+                if p in ("core::slice::<impl [T]>::is_empty",):
+                    return [(("bool", k == 0), mon)]
+                if decl == "std::iter::Iterator::next" and term.get("to") is not None:
+                    i = mon.get("i", 0)
+                    if i >= k:
+                        return [(("enum", ai.OPTION, 0, ()), mon)]
+                    # Rc<T> is modelled as its pointee (Deref on it is the identity in the interpreter)
+                    elem = ("enum", QR, qn.index("Resolved"), (("enum", PAVT, pn.index("String"), (("tuple", (("sym", "PATH%d" % i), ("sym", "E%d" % i))),)),))
+                    st.ext["ELEM%d" % i] = elem
+                    ty, _ = M.place_ty(cr, None, term["dest"], st.top.body)
+                    inner = ty.args()[0] if ty is not None and ty.args() else None
+                    item = ("ref", ("X", "ELEM%d" % i), ())
+                    if inner is not None and inner.kind == "tuple":
+                        item = ("tuple", (("int", i), item))
+                    return [(("enum", ai.OPTION, 1, (item,)), mon.set(i=i + 1))]
+                if p == "std::string::String::push_str":
+                    v = a.resolve(st, args[1])
+                    n = 0
+                    while v[0] == "ref" and n < 4:
+                        v = a.resolve(st, a.read_at(st, v[1], v[2]))
+                        n += 1
+                    name = v[1] if v[0] == "sym" else ai.fmt_val(v)
+                    tok = "d" if "arg2" in str(name) else str(name)
+                    return [(("tuple", ()), mon.set(ev=mon.get("ev", ()) + (tok,)))]
+                if p == "std::string::String::push":
+                    return [(("tuple", ()), mon.set(ev=mon.get("ev", ()) + ("char?",)))]
+                return None
+        a = ai.AI(cr, H())
+        try:
+            a.run(key, mon=Mon())
+        except ai.Undecided as e:
+            ctx.ob(rule, "%s:n=%d" % (rule, k), False, "undecided %s" % e, fn=f)
+            continue
+        ctx.states += a.n_states
+        want = []
+        for i in range(k):
+            if i:
+                want.append("d")
+            want.append("E%d" % i)
+        want = tuple(want)
+        oks = [ev for v, ev in results if v[0] == "enum" and v[1] == ai.RESULT and v[2] == 0]
+        bad = sorted(set(ev for ev in oks if ev != want))
+        ctx.ob(rule, "%s:n=%d" % (rule, k), bool(oks) and not bad, ("for %d string elements a path builds %s, expected %s" % (k, list(bad[0]), list(want))) if bad else "%d Ok paths, all build %s" % (len(oks), list(want)), fn=f,
+               sample={"n": k, "pushes": list(want)} if k == 3 else None)
+
+
 def run(ctx):
     cr = ctx.lib
     dispatch(ctx, cr)
     elementwise(ctx, cr)
     count_rule(ctx, cr)
+    join_shape(ctx, cr)
     ctx.assumptions += [
         "the values computed by str::to_uppercase, str::parse, urlencoding::decode, serde_json, chrono, fancy_regex are those primitives' (not analysed)",
         "composition laws (parse_int(parse_string(n)) = n, json_parse round trip) are behavioural and not claimed",
